@@ -40,7 +40,7 @@ RULE = ('fault-position sweep over usage scripts of the two real transports: ser
         'peers that accept writes slowly (half of the buffer at once, the rest 1-14 ticks later) so that deadlines expire inside a '
         'partially written frame; serial second incarnations (Close() or a failure, re-Open, then failures there); failure '
         'callbacks that retry on the same transport or Close() it; mux requests handed over between the start of Open() and its '
-        'completion, for every way the open can end (slow refused / successful connect, EOF / error before, inside and after the '
+        'completion (also after Close(): a doomed second life), for every way the open can end (slow refused / successful connect, EOF / error before, inside and after the '
         'first Rping, failing ping write, silent peer, peer hanging up or resetting, owner Close()); quick: seeded sample, thorough: '
         'seeded sample + exhaustive grid (every I/O operation index of the base scripts x every fault kind x in-flight set). '
         'non-trivial = a connection failure or time-out happened; distinct by canonical JSON of (case, observation)')
@@ -59,6 +59,14 @@ ASSUMPTIONS = ['gevent greenlets only switch at blocking calls; a greenlet made 
                'failure of the first incarnation and of a re-opened one once its own connect succeeded; on /repo a REFUSED re-Open '
                'of a closed serial sink reports the failure through the Open() result only (its _state is still Closed, so _Fault '
                'returns early) - C08_serial_open_fail states exactly that',
+               'self-audit dimensions: callbacks that retry / Close() / Open() / raise (Exception, gevent.Timeout) from inside a failure '
+               'callback, pipeline the next request from inside a reply callback, act from inside the fault notification; payloads of '
+               '255 B .. 70 KB; peer bytes arriving in 1-7 byte pieces; degenerate frames (zero / negative length, short, coalesced); '
+               'events exactly at / one tick around deadlines and the 5 s ping time-out in both same-instant orders; long-lived '
+               'transports (25-60 operations); two instances in one process (monitor only). Not generated because the unchanged code '
+               'fails them (reported as finding candidates): a raising failure callback inside the mux _Shutdown loop (set '
+               'C08_MUX_RAISING_CALLBACKS=1 to generate), a socket whose close() raises. Not modelled: Open() from inside the mux fault '
+               'notification while a ping helper of the first life is still pending',
                'callers may re-enter the transport from inside a failure callback (retry on the same sink, Close()); such requests '
                'are not subject to the open-and-idle oracle (the transport has just closed its socket), all other oracles apply',
                'a connect that meets silence ends with the kernel time-out (slow failure); a connect blocked for ever is treated '
@@ -104,6 +112,8 @@ def setup():
 
 def run_impl(case):
   setup()
+  if case['kind'] == 'twin':
+    return _S['drv'].run_twin(case)
   return _S['drv'].run_case(case)
 
 
@@ -123,6 +133,34 @@ SEND_FAULTS = ['exc', 'pipe', 'hang', 'parthang']
 RECV_FAULTS = ['exc', 'eof', 'hang']
 # what a call's owner does from inside its failure callback: nothing / retry on the same transport / Close() it
 ONFAIL = [None, None, None, None, None, 'retry', 'retry', 'close']
+PADS = [255, 256, 4096, 65535, 65536, 70000]          # payload sizes around 2^8, 2^16 and above 64 KiB
+RX_CHUNKS = [1, 1, 2, 3, 7]                            # the peer's bytes arrive in pieces of this size
+ON_FAULT = [None, None, None, None, 'close', 'req', 'open']
+# a callback that raises aborts MuxSocketTransportSink._Shutdown's loop over _tag_map on the unchanged code (reported to the
+# coordinator as a finding candidate); those cases are only generated on request
+MUX_RAISE = bool(__import__('os').environ.get('C08_MUX_RAISING_CALLBACKS'))
+
+
+def _req(r, c, dl, settle, ev, mux):
+  """a request op with what its owner does inside the callbacks, and its payload size"""
+  x = r.random()
+  if x < 0.62:
+    onfail = None
+  elif x < 0.76:
+    onfail = 'retry'
+  elif x < 0.84:
+    onfail = 'close'
+  elif x < 0.9:
+    onfail = 'open'
+  elif mux and not MUX_RAISE:
+    onfail = None
+  else:
+    onfail = r.choice(['raise', 'raise-timeout'])
+  pad = r.choice(PADS) if r.random() < 0.08 else 0
+  onreply = 'next' if r.random() < 0.12 else None
+  return ['req', c, dl, settle, ev, onfail, pad, onreply]
+
+
 
 
 def _gen_serial(r, idx):
@@ -133,6 +171,8 @@ def _gen_serial(r, idx):
     sv['reachable'] = False
   if r.random() < 0.2:
     sv['send_delay'] = r.choice([1, 3, 8, 14])      # slow, partially accepted writes
+  if r.random() < 0.15:
+    sv['rx_chunk'] = r.choice(RX_CHUNKS)            # short reads: every reply split into small pieces
   ops = [['open']]
   if sv.get('connect_delay'):
     ops.append(['adv', 4])
@@ -144,10 +184,10 @@ def _gen_serial(r, idx):
     if r.random() < 0.4:
       sv['plan'][str(c)] = r.choice(SER_PLANS)
     first_settle = 0 if r.random() < 0.2 else 1
-    ops.append(['req', c, dl, first_settle, 0, r.choice(ONFAIL)])
+    ops.append(_req(r, c, dl, first_settle, 0, False))
     if r.random() < 0.35:
       c += 1
-      ops.append(['req', c, r.choice([None, 5]), 1, 0, r.choice(ONFAIL)])
+      ops.append(_req(r, c, r.choice([None, 5]), 1, 0, False))
     x = r.random()
     if x < 0.12:
       ops.append(['peer', r.choice(['close', 'reset'])])
@@ -155,6 +195,9 @@ def _gen_serial(r, idx):
       ops.append(['close'])
       if r.random() < 0.6:
         ops.append(['open'])
+    elif x < 0.28:
+      # malformed / degenerate frames: zero length, negative length, a lone half header
+      ops.append(['peer', 'raw', r.choice(['00000000', 'ffffffff', '80000000', '0000', '00000001'])])
     ops.append(['adv', r.choice([1, 2, 4, 8, 16])])
     if r.random() < 0.25:
       ops.append(['open'])
@@ -168,7 +211,7 @@ def _gen_serial(r, idx):
     ops.append(['adv', 6])
     for cc in (61, 62):
       sv['plan'][str(cc)] = r.choice([{'act': 'drop'}, {'act': 'drop'}, {'act': 'reply', 'delay': 1}, {'act': 'close', 'delay': 1}])
-      ops.append(['req', cc, r.choice([4, 6, None]), 1, 0, r.choice(ONFAIL)])
+      ops.append(_req(r, cc, r.choice([4, 6, None]), 1, 0, False))
       ops.append(['adv', r.choice([4, 8, 12])])
   faults = []
   for _ in range(r.choice([0, 1, 1, 1, 2])):
@@ -179,10 +222,13 @@ def _gen_serial(r, idx):
       faults.append({'op': op, 'nth': r.choice([1, 2, 3]), 'what': r.choice(SEND_FAULTS)})
     else:
       faults.append({'op': op, 'nth': r.choice([1, 2, 3, 4, 5, 6, 8]), 'what': r.choice(RECV_FAULTS)})
+  if any(o[0] == 'req' and len(o) > 6 and o[6] for o in ops):
+    sv.pop('rx_chunk', None)          # (a 64 KiB echo in 1-byte pieces only costs time)
   ops.append(['adv', 20])
   ops.append(['req', 90, None, 1])
   ops.append(['adv', 8])
-  return {'kind': 'serial', 'tie': r.choice(['fifo', 'lifo']), 'server': sv, 'faults': faults, 'ops': ops, 'seed': idx}
+  return {'kind': 'serial', 'tie': r.choice(['fifo', 'lifo']), 'server': sv, 'faults': faults, 'ops': ops, 'seed': idx,
+          'on_fault': r.choice(ON_FAULT)}
 
 
 def _gen_mux(r, idx):
@@ -193,6 +239,8 @@ def _gen_mux(r, idx):
     sv['reachable'] = False
   if r.random() < 0.15:
     sv['send_delay'] = r.choice([1, 3, 8])
+  if r.random() < 0.15:
+    sv['rx_chunk'] = r.choice(RX_CHUNKS)
   ops = []
   if r.random() < 0.05:
     ops.append(['req', 80, None, 1])
@@ -209,7 +257,7 @@ def _gen_mux(r, idx):
       sv['connect_delay'] = r.choice([0, 2])
     for _ in range(r.choice([1, 1, 2, 3])):
       c += 1
-      ops.append(['req', c, None, 1, 1 if r.random() < 0.3 else 0, r.choice(ONFAIL)])
+      ops.append(_req(r, c, None, 1, 1 if r.random() < 0.3 else 0, True))
       if r.random() < 0.3:
         ops.append(['adv', 1])
     if how == 'hangup':
@@ -230,7 +278,7 @@ def _gen_mux(r, idx):
         sv['plan'][str(c)] = r.choice(MUX_PLANS)
       ev = 1 if r.random() < 0.4 else 0
       settle = 1 if (b == burst - 1 or r.random() < 0.4) else 0
-      ops.append(['req', c, None, settle, ev, r.choice(ONFAIL)])
+      ops.append(_req(r, c, None, settle, ev, True))
       if ev:
         issued.append(c)
       if ev and r.random() < 0.3:
@@ -247,6 +295,14 @@ def _gen_mux(r, idx):
       ops.append(['peer', 'rping'])
     elif x < 0.34:
       ops.append(['close'])
+    elif x < 0.42:
+      # degenerate frames, and two replies (for the tags 2 and 3) in one segment
+      ops.append(['peer', 'raw', r.choice(['00000000', '00000002fe00', '00000004fe000000', 'ffffffff',
+                                           '00000007fe000002000000' + '00000007fe000003000000',
+                                           '00000007fe000003000000' + '00000004bf000001' + '00000007fe000002000000'])])
+    if r.random() < 0.12:
+      ops.append(['open'])               # a second Open(): the same result while open, a doomed second life once closed
+      ops.append(['adv', r.choice([1, 6 * TPS])])
     ops.append(['adv', r.choice([1, 3, 8, 30])])
     if r.random() < 0.35:
       ops.append(['adv', r.choice([30 * TPS, 41 * TPS, 46 * TPS, 90 * TPS])])
@@ -265,11 +321,15 @@ def _gen_mux(r, idx):
     faults = [f for f in faults if f['op'] != 'connect'] + [{'op': 'connect', 'nth': 1, 'what': ['slow', r.choice([2, 5]), 0]}]
   elif how == 'slowok':
     faults = [f for f in faults if f['op'] != 'connect'] + [{'op': 'connect', 'nth': 1, 'what': ['slow', r.choice([2, 5]), 1]}]
+  if any(o[0] == 'req' and len(o) > 6 and o[6] for o in ops):
+    sv.pop('rx_chunk', None)
   ops.append(['adv', 8])
   ops.append(['req', 90, None, 1])
   ops.append(['adv', 8])
   return {'kind': 'mux', 'tie': r.choice(['fifo', 'lifo']), 'server': sv, 'faults': faults, 'ops': ops, 'seed': idx,
-          'draws': [r.randint(30, 40) for _ in range(6)]}
+          'draws': [r.randint(30, 40) for _ in range(6)],
+          # (a second Open() from inside the fault notification would race the old ping helper's wake-up: not modelled)
+          'on_fault': r.choice(ON_FAULT[:-1])}
 
 
 def _grid_serial():
@@ -390,6 +450,152 @@ def _grid_mux():
   return out
 
 
+def _gen_long(r, idx, mux):
+  """one long-lived transport re-used for many operations (state that is not reset on some path shows up late)"""
+  ops = [['open'], ['adv', 2]]
+  sv = {'default': {'act': 'reply', 'delay': 1}, 'plan': {}}
+  c = 0
+  if mux:
+    sv['ping'] = True
+    for _ in range(r.choice([8, 12])):
+      for b in range(r.choice([1, 2, 4])):
+        c += 1
+        if r.random() < 0.15:
+          sv['plan'][str(c)] = r.choice([{'act': 'drop'}, {'act': 'dup', 'delay': 1}, {'act': 'rerr', 'delay': 1}, {'act': 'reply', 'delay': 3}])
+        ev = 1 if r.random() < 0.25 else 0
+        ops.append(['req', c, None, 1 if b else 0, ev, None, 0, 'next' if r.random() < 0.1 else None])
+        if ev and r.random() < 0.5:
+          ops.append(['expire', c])
+      ops.append(['adv', r.choice([2, 6, 20 * TPS, 35 * TPS])])
+    if r.random() < 0.5:
+      ops.append(['peer', r.choice(['close', 'reset'])])
+      ops.append(['adv', 4])
+  else:
+    for _ in range(r.choice([25, 40])):
+      c += 1
+      x = r.random()
+      if x < 0.15:
+        sv['plan'][str(c)] = {'act': 'drop'}
+        ops.append(['req', c, r.choice([3, 5]), 1])           # times out: the connection is replaced
+        ops.append(['adv', 8])
+      elif x < 0.2:
+        ops.append(['req', c, 0, 1])                          # already expired
+        ops.append(['adv', 2])
+      else:
+        ops.append(['req', c, r.choice([None, 8, 8]), 1, 0, None, 0, 'next' if r.random() < 0.1 else None])
+        if r.random() < 0.1:
+          c += 1
+          ops.append(['req', c, None, 1])                     # while the previous one is in flight
+        ops.append(['adv', r.choice([2, 3])])
+    if r.random() < 0.5:
+      ops.append(['peer', r.choice(['close', 'reset'])])
+      c += 1
+      ops.append(['req', c, None, 1])
+      ops.append(['adv', 4])
+  ops += [['req', 90, None, 1], ['adv', 8]]
+  d = {'kind': 'mux' if mux else 'serial', 'tie': r.choice(['fifo', 'lifo']), 'server': sv, 'faults': [], 'ops': ops, 'seed': idx,
+       'long': True}
+  if mux:
+    d['draws'] = [r.randint(30, 40) for _ in range(12)]
+  return d
+
+
+def _grid_edges():
+  """events exactly AT a threshold, in both same-instant orders; degenerate frames; a doomed second life"""
+  out = []
+  for tie in ('fifo', 'lifo'):
+    # serial: the reply arrives one tick before / exactly at / one tick after the deadline
+    for dl in (4, 6):
+      for delay in (dl - 1, dl, dl + 1):
+        for chunks in (None, [2, 2, 3]):
+          plan = {'act': 'reply', 'delay': delay}
+          if chunks:
+            plan['chunks'] = chunks
+          out.append({'kind': 'serial', 'tie': tie, 'server': {'default': plan}, 'faults': [],
+                      'ops': [['open'], ['req', 1, dl, 1], ['req', 2, None, 1], ['adv', dl + 4], ['req', 3, dl, 1, 0, 'retry'],
+                              ['adv', dl + 4], ['req', 90, None, 1], ['adv', dl + 4]], 'seed': 0, 'grid': True})
+    # mux: the Rping arrives one tick before / exactly at / one tick after the 5 s ping time-out (opening ping and loop ping)
+    for off in (-1, 0, 1):
+      out.append({'kind': 'mux', 'tie': tie, 'server': {'default': {'act': 'reply', 'delay': 1}, 'ping': False}, 'faults': [],
+                  'ops': [['open'], ['peer_at', PING_TO + off, 'rping'], ['req', 1, None, 1], ['adv', PING_TO + 8],
+                          ['req', 2, None, 1], ['adv', 8]], 'seed': 0, 'draws': [30, 30], 'grid': True})
+      out.append({'kind': 'mux', 'tie': tie, 'server': {'default': {'act': 'drop'}, 'ping': 1}, 'faults': [],
+                  'ops': [['open'], ['req', 1, None, 1], ['adv', 30 * TPS - 2], ['peer_at', 2 + PING_TO + off, 'rping'],
+                          ['adv', PING_TO + 12], ['req', 2, None, 1], ['adv', 8]], 'seed': 0, 'draws': [30, 30], 'grid': True})
+    # a request issued at the very instant the ping loop wakes up / the time-out fires
+    out.append({'kind': 'mux', 'tie': tie, 'server': {'default': {'act': 'reply', 'delay': 1}, 'ping': 1}, 'faults': [],
+                'ops': [['open'], ['adv', 30 * TPS], ['req', 1, None, 1], ['adv', PING_TO], ['req', 2, None, 1], ['adv', 8]],
+                'seed': 0, 'draws': [30, 30], 'grid': True})
+  # degenerate frames from the peer
+  for raw in ('00000000', 'ffffffff', '80000000', '0000', '00000001'):
+    for when in ('idle', 'inflight'):
+      ops = [['open']]
+      if when == 'inflight':
+        ops.append(['req', 1, 12, 1])
+      ops += [['peer', 'raw', raw], ['adv', 16], ['req', 2, None, 1], ['adv', 8]]
+      out.append({'kind': 'serial', 'tie': 'fifo', 'server': {'default': {'act': 'drop'}, 'plan': {'2': {'act': 'reply', 'delay': 1}}},
+                  'faults': [], 'ops': ops, 'seed': 0, 'grid': True})
+  for raw in ('00000000', '00000002fe00', '00000004fe000000', 'ffffffff', '00000004fe000002',
+              '00000007fe000002000000' + '00000007fe000003000000', '00000007fe000003000000' + '00000004bf000001' + '00000007fe000002000000'):
+    for chunk in (None, 1):
+      sv = {'default': {'act': 'drop'}, 'ping': True}
+      if chunk:
+        sv['rx_chunk'] = chunk
+      out.append({'kind': 'mux', 'tie': 'fifo', 'server': sv, 'faults': [],
+                  'ops': [['open'], ['req', 1, None, 1], ['req', 2, None, 1], ['peer', 'raw', raw], ['adv', 4], ['req', 3, None, 1],
+                          ['adv', 4]], 'seed': 0, 'draws': [30], 'grid': True})
+  # mux: Open() again - while open (same result), after Close(), after a failure (a doomed second life), with requests meanwhile
+  for end in (None, ['close'], ['peer', 'close'], ['peer', 'reset']):
+    for during in (0, 1):
+      ops = [['open'], ['req', 1, None, 1]]
+      if end:
+        ops += [list(end), ['adv', 2]]
+      ops.append(['open'])
+      if during:
+        ops += [['adv', 2], ['req', 2, None, 1, 0, 'retry']]
+      ops += [['adv', 6 * TPS], ['req', 3, None, 1], ['adv', 4], ['open'], ['adv', 6 * TPS], ['req', 90, None, 1], ['adv', 4]]
+      out.append({'kind': 'mux', 'tie': 'fifo', 'server': {'default': {'act': 'drop'}, 'ping': True}, 'faults': [], 'ops': ops, 'seed': 0,
+                  'draws': [30, 30], 'grid': True})
+  # large payloads, slow writes
+  for pad in PADS:
+    for sd in (0, 3):
+      out.append({'kind': 'serial', 'tie': 'fifo', 'server': {'default': {'act': 'reply', 'delay': 1}, 'send_delay': sd}, 'faults': [],
+                  'ops': [['open'], ['req', 1, None, 1, 0, None, pad], ['adv', 8], ['req', 2, 2, 1, 0, None, pad], ['adv', 8],
+                          ['req', 90, None, 1], ['adv', 8]], 'seed': 0, 'grid': True})
+      out.append({'kind': 'mux', 'tie': 'fifo', 'server': {'default': {'act': 'reply', 'delay': 1}, 'ping': True, 'send_delay': sd}, 'faults': [],
+                  'ops': [['open'], ['adv', 8], ['req', 1, None, 0, 0, None, pad], ['req', 2, None, 1], ['adv', 8], ['req', 90, None, 1], ['adv', 8]],
+                  'seed': 0, 'draws': [30], 'grid': True})
+  return out
+
+
+def _gen_twin(r, idx):
+  """two transport instances of the same class in one process (class / module level state must not leak between them)"""
+  proto = r.choice(['mux', 'serial'])
+  ops = [['open', 0], ['open', 1], ['adv', 2]]
+  c = [0, 500]
+  disturbed = r.choice([0, 0, 1])
+  for _ in range(r.choice([2, 3, 5])):
+    i = r.choice([0, 1])
+    c[i] += 1
+    ops.append(['req', i, c[i]])
+    if proto == 'mux' and r.random() < 0.5:
+      c[i] += 1
+      ops.append(['req', i, c[i]])
+    ops.append(['adv', r.choice([1, 3])])
+  ops.append(r.choice([['peer', disturbed, 'close'], ['peer', disturbed, 'reset'], ['close', disturbed]]))
+  ops.append(['adv', 3])
+  for i in (0, 1):
+    c[i] += 1
+    ops.append(['req', i, c[i]])
+    ops.append(['adv', 3])
+  if proto == 'mux' and r.random() < 0.5:
+    ops.append(['adv', 46 * TPS])
+    c[1 - disturbed] += 1
+    ops.append(['req', 1 - disturbed, c[1 - disturbed]])
+    ops.append(['adv', 3])
+  return {'kind': 'twin', 'proto': proto, 'disturbed': disturbed, 'ops': ops, 'seed': idx}
+
+
 def gen_cases(tier, seed):
   quick = tier == 'quick'
   out = []
@@ -397,12 +603,16 @@ def gen_cases(tier, seed):
     out.append(_gen_serial(C.case_rng(seed, PID + 'ser', i), i))
   for i in range(450 if quick else 8000):
     out.append(_gen_mux(C.case_rng(seed, PID + 'mux', i), i))
-  gs, gm = _grid_serial(), _grid_mux()
+  for i in range(6 if quick else 60):
+    out.append(_gen_long(C.case_rng(seed, PID + 'long', i), i, i % 2 == 0))
+  for i in range(30 if quick else 300):
+    out.append(_gen_twin(C.case_rng(seed, PID + 'twin', i), i))
+  gs, gm, ge = _grid_serial(), _grid_mux(), _grid_edges()
   if quick:
     r = C.case_rng(seed, PID + 'grid', 0)
-    out += r.sample(gs, 150) + r.sample(gm, 150)
+    out += r.sample(gs, 150) + r.sample(gm, 150) + r.sample(ge, 60)
   else:
-    out += gs + gm
+    out += gs + gm + ge
   return out
 
 
@@ -432,7 +642,37 @@ def _flatten(obs):
   return out
 
 
+def monitor_twin(case, obs):
+  """two instances: what happens to one must not be visible on the other; every call gets exactly one message"""
+  v = []
+  d = case['disturbed']
+  posts = collections.defaultdict(list)
+  for e in obs['ev']:
+    if e[0] == 'post':
+      posts[e[1]].append(e[2])
+  for c, inst in obs['calls']:
+    got = posts.get(c, [])
+    if len(got) > 1:
+      v.append(('delivered-twice', 'call %s (instance %d) got %d messages: %s' % (c, inst, len(got), got)))
+    if inst != d and got != ['reply']:
+      v.append(('twin-instance-disturbed', 'instance %d was never touched, yet its call %s got %s (instance %d was closed / lost '
+                'its connection)' % (inst, c, got or 'nothing', d)))
+    if inst == d and not got and not any(o[0] == 'close' for o in case['ops']):
+      v.append(('in-flight-request-not-failed', 'call %s on instance %d never got a message' % (c, inst)))
+  if obs['faults'][1 - d]:
+    v.append(('twin-instance-disturbed', 'the untouched instance %d raised its fault signal' % (1 - d)))
+  if obs['states'][1 - d] != 'Open':
+    v.append(('twin-instance-disturbed', 'the untouched instance %d reports %s' % (1 - d, obs['states'][1 - d])))
+  if obs['states'][d] != 'Closed':
+    v.append(('reports-open-after-failure', 'instance %d lost its connection / was closed but reports %s' % (d, obs['states'][d])))
+  if obs['faults'][d] > 1:
+    v.append(('fault-signal-twice', 'instance %d raised its fault signal %d times' % (d, obs['faults'][d])))
+  return v
+
+
 def monitor(case, obs):
+  if case['kind'] == 'twin':
+    return monitor_twin(case, obs)
   v = []
   mux = case['kind'] == 'mux'
   sl = obs['slices']
@@ -492,7 +732,8 @@ def monitor(case, obs):
     # a ping queued at t that the peer did not answer by t + 5 s
     for p, (k, e) in enumerate(flat):
       if e[0] == 'q' and e[1] == 'put' and e[2] == 65:
-        if any(cp < p for cp in closes) or (k > 0 and sl[k - 1]['state'] == 'Closed'):
+        if any(cp < p for cp in closes) or (k > 0 and sl[k - 1]['state'] == 'Closed') or \
+            any(x[0] == 'w' and x[1] == 'close' for _kk, x in flat[:p]):
           continue                 # queued by a transport that was already closed: nothing left to detect
         t = sl[k]['t']
         answered = False
@@ -504,8 +745,9 @@ def monitor(case, obs):
           if e2[0] == 'w' and e2[1] == 'read-end' and e2[2] == 'ok' and len(e2) > 3 and e2[3].startswith('bf000001'):
             answered = True
             break
-          if (e2[0] == 'io' and len(e2) > 2 and (e2[1], e2[2]) in IO_FAIL) or (e2[0] == 'api' and e2[1] == 'close'):
-            other = True
+          if (e2[0] == 'io' and len(e2) > 2 and (e2[1], e2[2]) in IO_FAIL) or (e2[0] == 'api' and e2[1] == 'close') or \
+              (e2[0] == 'w' and e2[1] == 'close' and sl[k2]['t'] < t + PING_TO):
+            other = True       # something else (a failure, a protocol error, the owner) shut the transport down first
             break
         if answered or other or obs['end'] < t + PING_TO:
           continue
@@ -545,7 +787,8 @@ def monitor(case, obs):
                   % (what, c, end['state'])))
       elif got[0][2] not in ERR_KINDS and not (c in blocked and got[0][2] == 'notopen'):
         v.append(('in-flight-request-not-failed', 'connection failure (%s) with call %s in flight: it got %s' % (what, c, got[0][2])))
-    later_ok = any(e[0] == 'io' and e[1] == 'connect' and e[2] == 'ok' and pp > p and kk <= k for pp, (kk, e) in enumerate(flat))
+    later_ok = any(e[0] == 'io' and e[1] in ('connect', 'connect-begin') and (e[1] == 'connect-begin' or e[2] == 'ok') and pp > p and kk <= k
+                   for pp, (kk, e) in enumerate(flat))     # a new connection (attempt) exists by the end of the slice
     if end['state'] != 'Closed' and not later_ok:
       v.append(('reports-open-after-failure', 'connection failure (%s): transport reports %s' % (what, end['state'])))
   # ---- fault signal: at most once per connection; raised when a connection of this incarnation failed
@@ -567,15 +810,22 @@ def monitor(case, obs):
       x = flat[q][1]
       if x[0] == 'run' and x[1] == '_SafeLinkHelper':
         return True
-      if x[0] == 'api':
+      if x[0] == 'api' and x[1] == 'open':
         return False
     return False
   first_open = True
+  consumed = set()
   for p, (k, e) in enumerate(flat):
     if e[0] == 'api' and e[1] == 'open' and effective_open(p):
       if first_open:
         first_open = False
       else:
+        if inc_fail and not inc_faults:
+          # the notification is delivered asynchronously: a re-open from inside the failure callback comes first
+          q = next((qq for qq in range(p + 1, len(flat)) if flat[qq][0] == k and flat[qq][1][0] == 'fault'), None)
+          if q is not None:
+            consumed.add(q)
+            inc_faults += 1
         end_inc()
         inc_fail = inc_faults = 0
         inc_closed = False
@@ -587,7 +837,7 @@ def monitor(case, obs):
       per_conn = 0
     if p in fl and not inc_closed and established:
       inc_fail += 1
-    if e[0] == 'fault':
+    if e[0] == 'fault' and p not in consumed:
       inc_faults += 1
       per_conn += 1
       if per_conn == 2:
@@ -743,6 +993,8 @@ def monitor(case, obs):
     loop_pings = []
     first = True
     for k, e in flat:
+      if e[0] == 'w' and e[1] == 'close':
+        break                      # what a closed transport queues in a second life is never sent
       if e[0] == 'q' and e[1] == 'put' and e[2] == 65:
         if first:
           first = False
@@ -885,6 +1137,7 @@ def mux_labels(obs):
   out = []
   holder = {}             # tag -> call that was last given it
   fifo = []               # our mirror of the send queue (what was put and not yet taken)
+  unprocessed = []        # frames read whose _ProcessReply has not run yet
   sending = None
   cur_req = None
   initial_ping = False
@@ -902,7 +1155,11 @@ def mux_labels(obs):
       t = e[0]
       if t == 'api':
         if e[1] == 'open':
-          labels.append('Mux.MOpen')
+          # Open() from inside _Shutdown's notification loop finds the old open result still in place and returns it
+          # (nothing happens); everywhere else on a closed sink it starts a new _OpenImpl
+          nxt = next((x for x in ev[i + 1:] if (x[0] == 'api' and x[1] == 'open') or (x[0] == 'run' and x[1] == '_SafeLinkHelper')), None)
+          if s['state'] != 'Closed' or (nxt is not None and nxt[0] == 'run'):
+            labels.append('Mux.MOpen')
         elif e[1] == 'req':
           labels.append('(Mux.MReq %s)' % C.zlit(e[2]))
           cur_req = None if (len(e) > 4 and e[4] == 'blocked') else e[2]      # a blocked caller does nothing yet
@@ -942,6 +1199,11 @@ def mux_labels(obs):
           labels.append('(Mux.MPingStart %s)' % C.zlit(e[1]))
       elif t == 'run':
         if e[1] == '_ProcessReply':
+          if unprocessed:
+            # which call holds the frame's tag is decided when the frame is processed (a tag released by the frame before
+            # may have been handed to a new request meanwhile)
+            ll, ix, hx = unprocessed.pop(0)
+            ll[ix] = '(Mux.MRead IoOk %s)' % _frame(hx, holder)
           labels.append('Mux.MProcess')
       elif t == 'arwait':
         if not e[1]:
@@ -976,6 +1238,7 @@ def mux_labels(obs):
           f = 'Mux.FOther'
           if e[2] == 'ok' and rstage == 'body':
             f = _frame(e[3], holder)
+            unprocessed.append((labels, len(labels), e[3]))
           labels.append('(Mux.MRead %s %s)' % (_io(e[2]), f))
           if e[2] == 'ok':
             rstage = 'body' if rstage == 'hdr' else 'hdr'
@@ -1014,6 +1277,8 @@ def _frame(hex8, holder):
 
 
 def to_coq(case, obs):
+  if case['kind'] == 'twin':
+    return None          # monitor only: the model describes one instance
   mux = case['kind'] == 'mux'
   sl = mux_labels(obs) if mux else serial_labels(obs)
   pre = 'Mux' if mux else 'Serial'
@@ -1028,6 +1293,8 @@ def to_coq(case, obs):
 
 # ---------------------------------------------------------------------------------------------
 def nontrivial(case, obs):
+  if case['kind'] == 'twin':
+    return True
   for s in obs['slices']:
     for e in s['ev']:
       if e[0] == 'io' and len(e) > 2 and (e[1], e[2]) in IO_FAIL:
@@ -1040,6 +1307,8 @@ def nontrivial(case, obs):
 
 
 def describe(case, obs):
+  if case['kind'] == 'twin':
+    return {'case': case, 'states': obs.get('states'), 'faults': obs.get('faults')}
   return {'case': case, 'slices': [{'t': s['t'], 'what': s['what'], 'state': s['state'], 'ev': s['ev'][:14]} for s in obs['slices'][:8]],
           'requests_seen_by_peer': obs.get('requests')}
 
@@ -1085,6 +1354,43 @@ def stats(cases, obs):
           if e[0] == 'arget':
             resumes['MOResume/%s' % ('ok' if e[1] else 'failed')] += 1
   lab.update(resumes)
-  return {'mux_frames_dropped_after_deadline': skipped, 'model_labels_exercised': dict(sorted(lab.items())), 'connection_failures_injected': dict(sorted(fail.items())),
+  dims = collections.Counter()
+  for c, o in zip(cases, obs):
+    if not isinstance(o, dict):
+      continue
+    if c['kind'] == 'twin':
+      dims['two instances in one process (twin cases)'] += 1
+      continue
+    if 'slices' not in o:
+      continue
+    sv = c.get('server', {})
+    if sv.get('rx_chunk'):
+      dims['peer bytes arrive in pieces of %s' % sv['rx_chunk']] += 1
+    if sv.get('send_delay'):
+      dims['slow / partial writes'] += 1
+    if c.get('long'):
+      dims['long-lived transport (25-60 operations)'] += 1
+    nopen = 0
+    for sl_ in o['slices']:
+      for e in sl_['ev']:
+        if e[0] == 'cb-raise':
+          dims['failure callback raises %s' % e[2]] += 1
+        elif e[0] == 'api' and e[1] == 'req' and isinstance(e[2], int) and 1000 <= e[2] < 2000:
+          dims['re-entrant retry from a failure callback'] += 1
+        elif e[0] == 'api' and e[1] == 'req' and isinstance(e[2], int) and 2000 <= e[2] < 3000:
+          dims['next request issued from inside a reply callback'] += 1
+        elif e[0] == 'api' and e[1] == 'req' and e[2] == 3000:
+          dims['request issued from inside the fault notification'] += 1
+        elif e[0] == 'api' and e[1] == 'req' and len(e) > 4 and e[4] == 'blocked':
+          dims['request handed over while Open() was in progress'] += 1
+        elif e[0] == 'api' and e[1] == 'open':
+          nopen += 1
+          if nopen > 1:
+            dims['Open() again (same result / second life)'] += 1
+        elif e[0] == 'api' and e[1] == 'peer' and e[2] == 'raw':
+          dims['degenerate / coalesced raw frames from the peer'] += 1
+        elif e[0] == 'w' and e[1] == 'write-begin' and e[2] > 60000:
+          dims['payload above 60 KB'] += 1
+  return {'dimensions_exercised': dict(sorted(dims.items())), 'mux_frames_dropped_after_deadline': skipped, 'model_labels_exercised': dict(sorted(lab.items())), 'connection_failures_injected': dict(sorted(fail.items())),
           'messages_by_kind': dict(sorted(posts.items())), 'cases_with_connection_failure': nfail_cases,
           'greenlet_crashes_observed': crashes}
